@@ -1,7 +1,7 @@
 import vlib, common
 
 RULE = 'backup: random sequences of add / backup / delete-backup / list on a real RaftNode; every listing and every restored event count is compared with the Coq model; every live backup is restored into a fresh directory and a node opened on it: version, membership proofs of all its events and a consistency proof against the snapshots ORIGINALLY issued, ignorance of later events, next version and digest; transfer: the same on a replica that was itself restored by state transfer. distinct = (trial, backup, event)'
-CMDS = ['backup', 'transfer']
+CMDS = ['backup', 'backuplive', 'transfer']
 CASES = {'backup': ('run_backup_cases', 'C16_abstraction_step / C16_backup_restores_log_as_of_backup (Fsm/Backup.v vs consensus/backup.go, storage/rocks)')}
 
 
